@@ -152,29 +152,37 @@ def locF (f : File) (lat lon : F64) : Option (Int × Int × F64 × F64) :=
   let ix := ix + (if ix < 0 then f.w else if ix ≥ f.w then -f.w else 0)
   some (ix, iy, fx, fy)
 
-/-- bilinear: the prepared cell data are the four corner values -/
-def prepBilinear (_iy : Int) (v : List Nat) : List F64 := v.map fun (n : Nat) => F64.ofInt (n : Int)
+/-- bilinear: the prepared cell data are the four corner values (`cast` = conversion of a pixel to the number type) -/
+def prepBilinearG {R : Type} (cast : Int → R) (_iy : Int) (v : List Nat) : List R := v.map fun (n : Nat) => cast (n : Int)
 
-def interpBilinear (offset scale : F64) (fx fy : F64) (c : List F64) : F64 :=
+/-- the bilinear formula of `Geoid::height`, generic in the number type (read at `F64` it is what the driver executes,
+    read at `ℚ` it is the exact interpolant of the theorems) -/
+def interpBilinearG {R : Type} [Add R] [Sub R] [Mul R] [OfNat R 0] [OfNat R 1] (offset scale : R) (fx fy : R) (c : List R) : R :=
   let v00 := c.getD 0 0; let v01 := c.getD 1 0; let v10 := c.getD 2 0; let v11 := c.getD 3 0
-  let a := ((1 : F64) - fx) * v00 + fx * v01
-  let b := ((1 : F64) - fx) * v10 + fx * v11
-  let cc := ((1 : F64) - fy) * a + fy * b
+  let a := ((1 : R) - fx) * v00 + fx * v01
+  let b := ((1 : R) - fx) * v10 + fx * v11
+  let cc := ((1 : R) - fy) * a + fy * b
   offset + scale * cc
 
 /-- cubic: `t[i] = (Σ_j v[j]·c3x[10 j + i]) / c0x` with the north / south / interior tables -/
-def prepCubic (h : Int) (iy : Int) (v : List Nat) : List F64 :=
+def prepCubicG {R : Type} [Add R] [Mul R] [Div R] [OfNat R 0] (cast : Int → R) (h : Int) (iy : Int) (v : List Nat) : List R :=
   let c3x := if iy = 0 then Gen.GeoidC.c3n else if iy = h - 2 then Gen.GeoidC.c3s else Gen.GeoidC.c3
   let c0x := if iy = 0 then Gen.GeoidC.c0n else if iy = h - 2 then Gen.GeoidC.c0s else Gen.GeoidC.c0
   (List.range 10).map fun i =>
-    let t := (List.range 12).foldl (fun (acc : F64) j => acc + F64.ofInt ((v.getD j 0 : Nat) : Int) * F64.ofInt (c3x.getD (10 * j + i) 0)) 0
-    t / F64.ofInt c0x
+    let t := (List.range 12).foldl (fun (acc : R) j => acc + cast ((v.getD j 0 : Nat) : Int) * cast (c3x.getD (10 * j + i) 0)) 0
+    t / cast c0x
 
-def interpCubic (offset scale : F64) (fx fy : F64) (t : List F64) : F64 :=
+/-- the cubic formula of `Geoid::height` -/
+def interpCubicG {R : Type} [Add R] [Mul R] [OfNat R 0] (offset scale : R) (fx fy : R) (t : List R) : R :=
   let g (i : Nat) := t.getD i 0
   let h := g 0 + fx * (g 1 + fx * (g 3 + fx * g 6)) +
     fy * (g 2 + fx * (g 4 + fx * g 7) + fy * (g 5 + fx * g 8 + fy * g 9))
   offset + scale * h
+
+def prepBilinear (iy : Int) (v : List Nat) : List F64 := prepBilinearG F64.ofInt iy v
+def interpBilinear (offset scale : F64) (fx fy : F64) (c : List F64) : F64 := interpBilinearG offset scale fx fy c
+def prepCubic (h : Int) (iy : Int) (v : List Nat) : List F64 := prepCubicG F64.ofInt h iy v
+def interpCubic (offset scale : F64) (fx fy : F64) (t : List F64) : F64 := interpCubicG offset scale fx fy t
 
 def concrete (f : File) (cubic : Bool) : Env F64 (List F64) :=
   { H := ⟨f.w, f.h⟩, pix := f.pix,
@@ -283,7 +291,8 @@ def cacheNorth {C : Type} (f : File) (cubic : Bool) (s : St C) : F64 :=
 def cacheSouth {C : Type} (f : File) (cubic : Bool) (s : St C) : F64 :=
   if s.cache then F64.ofInt Gen.MathC.qd - F64.ofInt (s.yoff + s.ysize - 1 - (if cubic then 1 else 0)) / rlatresF f else 0
 
-/-- `Geoid::ConvertHeight(lat, lon, h, d) = h + real(d) * height(lat, lon)`, `d = ±1` -/
-def convertHeight (h : F64) (d : Int) (N : F64) : F64 := h + F64.ofInt d * N
+/-- `Geoid::ConvertHeight(lat, lon, h, d) = h + real(d) * height(lat, lon)`, `d = ±1` (generic in the number type) -/
+def convertHeightG {R : Type} [Add R] [Mul R] (h d N : R) : R := h + d * N
+def convertHeight (h : F64) (d : Int) (N : F64) : F64 := convertHeightG h (F64.ofInt d) N
 
 end GeoVerif.Geoid
